@@ -39,10 +39,11 @@ Inductive mcell := MA (a : nat) | MF (fd : fdef).
    evaluator read the function cell c *)
 (* mi: the INT cells — cells bound (var x = <int_shaped>) to names that may be assigned to at level 6 *)
 Record morph := { mm : list mcell; mv : list (nat * list nat); mf : list (nat * (fdef * env));
-                  mc : list (nat * nat); mi : list nat }.
+                  mc : list (nat * nat); mi : list nat;
+                  mar : list (nat * list nat) }.   (* mar: the ARRAYS — (ar, l): array object ar is the vector l *)
 
 Definition mget (m : morph) (c : nat) : option mcell := nth_error (mm m) c.
-Definition msnoc (m : morph) (x : mcell) : morph := {| mm := mm m ++ [x]; mv := mv m; mf := mf m; mc := mc m; mi := mi m |}.
+Definition msnoc (m : morph) (x : mcell) : morph := {| mm := mm m ++ [x]; mv := mv m; mf := mf m; mc := mc m; mi := mi m; mar := mar m |}.
 
 (* the value relation: a is the image of the cell c, or a copy of the function c holds *)
 Definition vrel (m : morph) (c a : nat) : Prop := mget m c = Some (MA a) \/ In (a, c) (mc m).
@@ -91,6 +92,7 @@ Definition cell_rel (m : morph) (v : cellval) (hc : hcell) : Prop :=
   match v, hc with
   | CFun fd cenv, HFun vec addr => fun_rel m fd cenv vec addr
   | (CInt _ | CBool _), HInt z => val_rel v z
+  | CArr (Some ar), HVec l => In (ar, l) (mar m)
   | _, _ => False
   end.
 
@@ -120,12 +122,18 @@ Record MS (m : morph) (st : state) (h : list hcell) : Prop := {
   ms_cp : forall a c, In (a, c) (mc m) -> cp_ok m (cells st) h a c;
   ms_nocp : cp = false -> mc m = [];
   ms_int : forall c, In c (mi m) ->
-           exists v, nth_error (cells st) c = Some v /\ match v with CInt _ | CBool _ => True | _ => False end
+           exists v, nth_error (cells st) c = Some v /\ match v with CInt _ | CBool _ => True | _ => False end;
+  (* arrays: a recorded array object has the recorded vector of its element cells' images; the element cells of
+     every array object are int cells *)
+  ms_arr : forall ar l, In (ar, l) (mar m) ->
+           exists elems, nth_error (arrs st) ar = Some elems /\ Forall2 (vrel m) elems l;
+  ms_arrmi : forall ar elems, nth_error (arrs st) ar = Some elems -> Forall (fun c => In c (mi m)) elems;
+  ms_noarr : cp = false -> mar m = []
 }.
 
 Definition ext (m m' : morph) : Prop :=
   (exists l, mm m' = mm m ++ l) /\ (exists l, mv m' = mv m ++ l) /\ (exists l, mf m' = mf m ++ l) /\
-  (exists l, mc m' = mc m ++ l) /\ (exists l, mi m' = mi m ++ l).
+  (exists l, mc m' = mc m ++ l) /\ (exists l, mi m' = mi m ++ l) /\ (exists l, mar m' = mar m ++ l).
 
 Ltac ext_solve := unfold ext; simpl; repeat split; first [exists []; now rewrite app_nil_r | eexists; reflexivity].
 
@@ -134,13 +142,14 @@ Proof. intros m. ext_solve. Qed.
 
 Lemma ext_trans : forall a b c, ext a b -> ext b c -> ext a c.
 Proof.
-  intros a b c ((l1 & E1) & (v1 & F1) & (w1 & G1) & (x1 & I1) & (y1 & J1)) ((l2 & E2) & (v2 & F2) & (w2 & G2) & (x2 & I2) & (y2 & J2)).
-  split; [|split; [|split; [|split]]].
+  intros a b c ((l1 & E1) & (v1 & F1) & (w1 & G1) & (x1 & I1) & (y1 & J1) & (z1 & K1)) ((l2 & E2) & (v2 & F2) & (w2 & G2) & (x2 & I2) & (y2 & J2) & (z2 & K2)).
+  split; [|split; [|split; [|split; [|split]]]].
   - exists (l1 ++ l2). rewrite E2, E1. now rewrite app_assoc.
   - exists (v1 ++ v2). rewrite F2, F1. now rewrite app_assoc.
   - exists (w1 ++ w2). rewrite G2, G1. now rewrite app_assoc.
   - exists (x1 ++ x2). rewrite I2, I1. now rewrite app_assoc.
   - exists (y1 ++ y2). rewrite J2, J1. now rewrite app_assoc.
+  - exists (z1 ++ z2). rewrite K2, K1. now rewrite app_assoc.
 Qed.
 
 Lemma ext_fcl : forall m m' x, ext m m' -> In x (mf m) -> In x (mf m').
@@ -162,7 +171,10 @@ Lemma ext_cp : forall m m' x, ext m m' -> In x (mc m) -> In x (mc m').
 Proof. intros m m' x (_ & _ & _ & (l & E) & _) H. rewrite E. apply in_or_app. auto. Qed.
 
 Lemma ext_mi : forall m m' x, ext m m' -> In x (mi m) -> In x (mi m').
-Proof. intros m m' x (_ & _ & _ & _ & (l & E)) H. rewrite E. apply in_or_app. auto. Qed.
+Proof. intros m m' x (_ & _ & _ & _ & (l & E) & _) H. rewrite E. apply in_or_app. auto. Qed.
+
+Lemma ext_mar : forall m m' x, ext m m' -> In x (mar m) -> In x (mar m').
+Proof. intros m m' x (_ & _ & _ & _ & _ & (l & E)) H. rewrite E. apply in_or_app. auto. Qed.
 
 Lemma vrel_ext : forall m m' c a, ext m m' -> vrel m c a -> vrel m' c a.
 Proof. intros m m' c a He [H | H]; [left; eapply ext_nth; eauto | right; eapply ext_cp; eauto]. Qed.
@@ -179,7 +191,11 @@ Proof.
 Qed.
 
 Lemma cell_rel_ext : forall m m' v hc, ext m m' -> cell_rel m v hc -> cell_rel m' v hc.
-Proof. intros m m' v hc He H. destruct v, hc; simpl in *; auto. eapply fun_rel_ext; eauto. Qed.
+Proof.
+  intros m m' v hc He H. destruct v as [z|b|fd ce|[ar|]|r], hc; simpl in *; auto.
+  - eapply fun_rel_ext; eauto.
+  - eapply ext_mar; eauto.
+Qed.
 
 Lemma cp_ok_mono : forall m m' cs cs' h h' a c, ext m m' ->
   (forall c fd cenv, nth_error cs c = Some (CFun fd cenv) -> nth_error cs' c = Some (CFun fd cenv)) ->
@@ -230,11 +246,11 @@ Qed.
 (* the cell of a value holds an int, a bool or a function, never nil *)
 Lemma vrel_kind : forall m st h c a, MS m st h -> vrel m c a ->
   exists v, nth_error (cells st) c = Some v /\
-    match v with CInt _ | CBool _ | CFun _ _ => True | _ => False end.
+    match v with CInt _ | CBool _ | CFun _ _ | CArr (Some _) => True | _ => False end.
 Proof.
   intros m st h c a HMS [Hm | Hm].
   - destruct (ms_rel _ _ _ HMS c a Hm) as (v & hc & Hc & _ & Hv & _). exists v. split; [exact Hc|].
-    destruct v, hc; simpl in Hv; try contradiction; exact I.
+    destruct v as [z|b|fd ce|[ar|]|r], hc; simpl in Hv; try contradiction; exact I.
   - destruct (ms_cp _ _ _ HMS a c Hm) as (fd & cenv & vec & addr & Hc & _). exists (CFun fd cenv). split; [exact Hc | exact I].
 Qed.
 
@@ -260,7 +276,7 @@ Proof.
   destruct (vrel_kind _ _ _ _ _ HMS H1) as (v1 & Hc1 & Hv1).
   destruct (vrel_kind _ _ _ _ _ HMS H2) as (v2 & Hc2 & Hv2).
   unfold get_cell. rewrite Hc1, Hc2.
-  destruct v1; try contradiction; destruct v2; try contradiction; reflexivity.
+  destruct v1 as [z1|b1|fd1 ce1|[ar1|]|r1]; try contradiction; destruct v2 as [z2|b2|fd2 ce2|[ar2|]|r2]; try contradiction; reflexivity.
 Qed.
 
 Lemma MS_addr_lt : forall m st h c a, MS m st h -> vrel m c a -> (a < length h)%nat.
@@ -269,6 +285,16 @@ Proof.
   - destruct (ms_rel _ _ _ HMS c a Hm) as (? & ? & _ & Hh & _ & _).
     apply nth_error_Some. congruence.
   - destruct (ms_cp _ _ _ HMS a c Hm) as (fd & cenv & vec & addr & _ & Hh & _). apply nth_error_Some. congruence.
+Qed.
+
+(* the value in an array cell: the recorded vector *)
+Lemma vrel_arr : forall m st h c a ar, MS m st h -> vrel m c a -> nth_error (cells st) c = Some (CArr (Some ar)) ->
+  exists l, nth_error h a = Some (HVec l) /\ In (ar, l) (mar m).
+Proof.
+  intros m st h c a ar HMS [Hm | Hm] Hc.
+  - destruct (ms_rel _ _ _ HMS c a Hm) as (v & hc & Hc' & Hh & Hr & _). rewrite Hc in Hc'. inversion Hc'; subst v.
+    destruct hc as [ | | l]; simpl in Hr; try contradiction. exists l. split; [exact Hh | exact Hr].
+  - destruct (ms_cp _ _ _ HMS a c Hm) as (fd & cenv & vec & addr & Hc' & _). rewrite Hc in Hc'. discriminate Hc'.
 Qed.
 
 (* what a call through a value finds *)
@@ -294,6 +320,22 @@ Proof.
   destruct (ms_fcl _ _ _ HMS _ _ _ Hin) as [E | (_ & v & E & _)]; rewrite E; discriminate.
 Qed.
 
+(* the array clauses survive an extension of the morphism that records no array, when no array object is made *)
+Lemma arr_keep : forall m m' st h (arrs' : list (list nat)), MS m st h -> ext m m' -> mar m' = mar m -> arrs' = arrs st ->
+  forall ar l, In (ar, l) (mar m') -> exists elems, nth_error arrs' ar = Some elems /\ Forall2 (vrel m') elems l.
+Proof.
+  intros m m' st h arrs' HMS He Em Ea ar l Hin. rewrite Em in Hin. subst arrs'.
+  destruct (ms_arr _ _ _ HMS ar l Hin) as (elems & A & B). exists elems. split; [exact A|].
+  eapply Forall2_imp; [|exact B]. intros x y Hxy. eapply vrel_ext; eauto.
+Qed.
+
+Lemma arrmi_keep : forall m m' st h (arrs' : list (list nat)), MS m st h -> ext m m' -> arrs' = arrs st ->
+  forall ar elems, nth_error arrs' ar = Some elems -> Forall (fun c => In c (mi m')) elems.
+Proof.
+  intros m m' st h arrs' HMS He Ea ar elems Hn. subst arrs'.
+  pose proof (ms_arrmi _ _ _ HMS ar elems Hn) as H. rewrite Forall_forall in *. intros c Hc. eapply ext_mi; eauto.
+Qed.
+
 Definition frec (c : nat) (v : cellval) : list (nat * (fdef * env)) :=
   match v with CFun fd cenv => [(c, (fd, cenv))] | _ => [] end.
 
@@ -301,7 +343,7 @@ Definition frec (c : nat) (v : cellval) : list (nat * (fdef * env)) :=
 Lemma MS_alloc_gen : forall m st h v hc c st' pad,
   MS m st h -> cell_rel m v hc -> alloc st v = (c, st') ->
   (forall fd cenv k, v = CFun fd cenv -> nth_error AF k = Some (KNamed, fd) -> lookup (fd_name fd) cenv = Some c) ->
-  let m' := {| mm := mm m ++ [MA (length h + length pad)]; mv := mv m; mf := mf m ++ frec c v; mc := mc m; mi := mi m |} in
+  let m' := {| mm := mm m ++ [MA (length h + length pad)]; mv := mv m; mf := mf m ++ frec c v; mc := mc m; mi := mi m; mar := mar m |} in
   MS m' st' (h ++ pad ++ [hc]) /\ vrel m' c (length h + length pad) /\ ext m m' /\
   out st' = out st.
 Proof.
@@ -364,6 +406,9 @@ Proof.
     + apply (ms_nocp _ _ _ HMS).
     + intros c Hin. destruct (ms_int _ _ _ HMS c Hin) as (w & Hw & Hk). exists w. split; [|exact Hk].
       rewrite nth_error_app1; [exact Hw | apply nth_error_Some; congruence].
+    + exact (arr_keep _ _ _ _ _ HMS He eq_refl eq_refl).
+    + exact (arrmi_keep _ _ _ _ _ HMS He eq_refl).
+    + exact (ms_noarr _ _ _ HMS).
   - left. unfold mget, m'. simpl. rewrite <- Hlen, nth_error_app2, Nat.sub_diag by lia. reflexivity.
   - exact He.
   - reflexivity.
@@ -434,7 +479,15 @@ Proof.
   - intros c fd Hm. rewrite nth_error_list_upd_other; [apply (ms_fun _ _ _ HMS _ _ Hm) | congruence].
   - intros v0 l Hin. rewrite nth_error_list_upd_other; [apply (ms_vec _ _ _ HMS _ _ Hin)|].
     intros ->. destruct (ms_rel _ _ _ HMS cl v0 Hl) as (v' & hc & _ & Hh & Hr & _).
-    rewrite (ms_vec _ _ _ HMS _ _ Hin) in Hh. inversion Hh; subst hc. destruct v'; simpl in Hr; contradiction.
+    rewrite (ms_vec _ _ _ HMS _ _ Hin) in Hh. inversion Hh; subst hc.
+    destruct v' as [z0|b0|fd0 ce0|[ar0|]|r0]; simpl in Hr; try contradiction.
+    (* the left cell holds an array: there are none without copies, and an int cell holds none *)
+    destruct Hsafe as [Hcp | Hmi].
+    + rewrite (ms_noarr _ _ _ HMS Hcp) in Hr. destruct Hr.
+    + destruct (ms_int _ _ _ HMS cl Hmi) as (w & Hw & Hk).
+      destruct (ms_rel _ _ _ HMS cl v0 Hl) as (v'' & hc'' & Hc'' & Hh'' & Hr'' & _).
+      rewrite Hw in Hc''. inversion Hc''; subst v''. rewrite (ms_vec _ _ _ HMS _ _ Hin) in Hh''. inversion Hh''; subst hc''.
+      destruct w; simpl in Hr''; contradiction.
   - intros c fd cenv Hin. destruct (Nat.eq_dec c cl) as [-> | Hne].
     + destruct Hsafe as [Hcp | Hmi].
       * right. split; [exact Hcp|]. exists v. split; [|exact Hiv]. apply nth_error_list_upd_same. eapply MS_fcl_lt; eauto.
@@ -455,6 +508,9 @@ Proof.
       destruct (ms_int _ _ _ HMS cl Hin) as (w & Hw & _). apply nth_error_Some. congruence.
     + destruct (ms_int _ _ _ HMS c Hin) as (w & Hw & Hk). exists w. split; [|exact Hk].
       rewrite nth_error_list_upd_other by congruence. exact Hw.
+  - exact (arr_keep _ _ _ _ _ HMS (ext_refl m) eq_refl eq_refl).
+  - exact (arrmi_keep _ _ _ _ _ HMS (ext_refl m) eq_refl).
+  - exact (ms_noarr _ _ _ HMS).
 Qed.
 
 (* a run of sibling functions: k new cells (the evaluator's closures over the common environment e'), their
@@ -467,7 +523,7 @@ Lemma MS_run : forall m st h H' (fds : list fdef) (e : env) newvecs newcps,
   let e' := func_env fds c0 e in
   (forall x c, lookup x e' = Some c -> is_fname FS x = false) ->
   let m' := {| mm := mm m ++ map MA (seq (length h) (length fds)); mv := mv m ++ newvecs;
-               mf := mf m ++ combine (seq c0 (length fds)) (map (fun f => (f, e')) fds); mc := mc m ++ newcps; mi := mi m |} in
+               mf := mf m ++ combine (seq c0 (length fds)) (map (fun f => (f, e')) fds); mc := mc m ++ newcps; mi := mi m; mar := mar m |} in
   (forall j fd, nth_error fds j = Some fd ->
      exists v ad addr, nth_error H' (length h + j) = Some (HFun v addr) /\ In (v, ad) newvecs /\
        fun_addr fd addr /\
@@ -562,6 +618,9 @@ Proof.
   - intros Hcp. unfold m'. simpl. rewrite (ms_nocp _ _ _ HMS Hcp), (Hncp Hcp). reflexivity.
   - intros c Hin. destruct (ms_int _ _ _ HMS c Hin) as (w & Hw & Hk). exists w. split; [|exact Hk].
     simpl. rewrite nth_error_app1; [exact Hw | apply nth_error_Some; congruence].
+  - exact (arr_keep _ _ _ _ _ HMS He eq_refl eq_refl).
+  - exact (arrmi_keep _ _ _ _ _ HMS He eq_refl).
+  - exact (ms_noarr _ _ _ HMS).
 Qed.
 
 (* one closure (a function expression): a new cell, a new function object after a new vector *)
@@ -570,12 +629,12 @@ Lemma MS_closure : forall m st h fd (e : env) addrs addr c st',
   fun_addr fd addr -> (forall x c, lookup x e = Some c -> is_fname FS x = false) ->
   (forall k, nth_error AF k <> Some (KNamed, fd)) ->
   Forall2 (fun y a => exists c, lookup y e = Some c /\ vrel m c a /\ (mem_id y ivs = true -> In c (mi m))) (fvs_fd TL fd) addrs ->
-  let m' := {| mm := mm m ++ [MA (S (length h))]; mv := mv m ++ [(length h, addrs)]; mf := mf m ++ [(c, (fd, e))]; mc := mc m; mi := mi m |} in
+  let m' := {| mm := mm m ++ [MA (S (length h))]; mv := mv m ++ [(length h, addrs)]; mf := mf m ++ [(c, (fd, e))]; mc := mc m; mi := mi m; mar := mar m |} in
   MS m' st' (h ++ [HVec addrs; HFun (length h) addr]) /\ vrel m' c (S (length h)) /\ ext m m' /\
   out st' = out st.
 Proof.
   intros m st h fd e addrs addr c st' HMS Ha Hfa Hnf Hnn HF m'.
-  set (m1 := {| mm := mm m; mv := mv m ++ [(length h, addrs)]; mf := mf m; mc := mc m; mi := mi m |}).
+  set (m1 := {| mm := mm m; mv := mv m ++ [(length h, addrs)]; mf := mf m; mc := mc m; mi := mi m; mar := mar m |}).
   assert (He1 : ext m m1) by ext_solve.
   assert (HMS1 : MS m1 st (h ++ [HVec addrs])).
   { constructor.
@@ -594,7 +653,10 @@ Proof.
       + auto.
       + intros a1 vec addr0 Hh. rewrite nth_error_app1; [exact Hh | apply nth_error_Some; congruence].
     - apply (ms_nocp _ _ _ HMS).
-    - apply (ms_int _ _ _ HMS). }
+    - apply (ms_int _ _ _ HMS).
+    - exact (arr_keep _ _ _ _ _ HMS He1 eq_refl eq_refl).
+    - exact (arrmi_keep _ _ _ _ _ HMS He1 eq_refl).
+    - exact (ms_noarr _ _ _ HMS). }
   assert (Hrel : cell_rel m1 (CFun fd e) (HFun (length h) addr)).
   { simpl. split; [exact Hfa|]. split; [exact Hnf|]. exists addrs. split.
     - unfold m1. simpl. apply in_or_app. right. left. reflexivity.
@@ -614,7 +676,7 @@ Lemma MS_copy : forall m st h c fd cenv vec addr pad,
   MS m st h -> cp = true -> nth_error (cells st) c = Some (CFun fd cenv) ->
   ((exists kidx, nth_error AF kidx = Some (KTop, fd) /\ addr = nth (nstd + kidx) ftab 0%nat /\ cenv = []) \/
    (fun_rel m fd cenv vec addr /\ In (c, (fd, cenv)) (mf m))) ->
-  let m' := {| mm := mm m; mv := mv m; mf := mf m; mc := mc m ++ [((length h + length pad)%nat, c)]; mi := mi m |} in
+  let m' := {| mm := mm m; mv := mv m; mf := mf m; mc := mc m ++ [((length h + length pad)%nat, c)]; mi := mi m; mar := mar m |} in
   MS m' st (h ++ pad ++ [HFun vec addr]) /\ vrel m' c (length h + length pad) /\ ext m m'.
 Proof.
   intros m st h c fd cenv vec addr pad HMS Hcp Hc Hd m'.
@@ -638,13 +700,16 @@ Proof.
         -- destruct Hd as [Hd | (D1 & D2)]; [left; exact Hd | right]. split; [eapply fun_rel_ext; eauto | exact D2].
     + intros Hx. congruence.
     + apply (ms_int _ _ _ HMS).
+    + exact (arr_keep _ _ _ _ _ HMS He eq_refl eq_refl).
+    + exact (arrmi_keep _ _ _ _ _ HMS He eq_refl).
+    + exact (ms_noarr _ _ _ HMS).
   - right. unfold m'. simpl. apply in_or_app. right. left. reflexivity.
 Qed.
 
 (* a cell that holds an int is recorded as an int cell *)
 Lemma MS_addint : forall m st h c v, MS m st h -> nth_error (cells st) c = Some v ->
   match v with CInt _ | CBool _ => True | _ => False end ->
-  let m' := {| mm := mm m; mv := mv m; mf := mf m; mc := mc m; mi := mi m ++ [c] |} in
+  let m' := {| mm := mm m; mv := mv m; mf := mf m; mc := mc m; mi := mi m ++ [c]; mar := mar m |} in
   MS m' st h /\ ext m m' /\ In c (mi m').
 Proof.
   intros m st h c v HMS Hc Hv m'.
@@ -664,6 +729,45 @@ Proof.
   - intros c0 Hin. unfold m' in Hin. simpl in Hin. apply in_app_or in Hin. destruct Hin as [Hin | [<- | []]].
     + apply (ms_int _ _ _ HMS _ Hin).
     + exists v. split; [exact Hc | exact Hv].
+  - exact (arr_keep _ _ _ _ _ HMS He eq_refl eq_refl).
+  - exact (arrmi_keep _ _ _ _ _ HMS He eq_refl).
+  - exact (ms_noarr _ _ _ HMS).
+Qed.
+
+(* a new array object over element cells that are int cells with images l *)
+Lemma MS_newarr : forall m st h elems l,
+  MS m st h -> cp = true -> Forall2 (vrel m) elems l -> Forall (fun c => In c (mi m)) elems ->
+  let m' := {| mm := mm m; mv := mv m; mf := mf m; mc := mc m; mi := mi m; mar := mar m ++ [(length (arrs st), l)] |} in
+  MS m' (snd (new_arr st elems)) h /\ ext m m' /\ In (length (arrs st), l) (mar m').
+Proof.
+  intros m st h elems l HMS Hcp HF Hmi m'.
+  assert (He : ext m m') by ext_solve.
+  split; [|split; [exact He | unfold m'; simpl; apply in_or_app; right; left; reflexivity]].
+  constructor; cbn [new_arr snd cells arrs].
+  - apply (ms_len _ _ _ HMS).
+  - intros c0 a Hm. destruct (ms_rel _ _ _ HMS c0 a Hm) as (v0 & hc & A & B & D & E).
+    exists v0, hc. split; [exact A|]. split; [exact B|]. split; [eapply cell_rel_ext; eauto | exact E].
+  - apply (ms_inj _ _ _ HMS).
+  - apply (ms_fun _ _ _ HMS).
+  - apply (ms_vec _ _ _ HMS).
+  - apply (ms_fcl _ _ _ HMS).
+  - apply (ms_fself _ _ _ HMS).
+  - intros a c0 Hin. eapply cp_ok_mono; [exact He | | | apply (ms_cp _ _ _ HMS _ _ Hin)]; auto.
+  - apply (ms_nocp _ _ _ HMS).
+  - apply (ms_int _ _ _ HMS).
+  - intros ar l0 Hin. unfold m' in Hin. simpl in Hin. apply in_app_or in Hin. destruct Hin as [Hin | [Hin | []]].
+    + destruct (ms_arr _ _ _ HMS ar l0 Hin) as (el & A & B). exists el. split.
+      * rewrite nth_error_app1; [exact A | apply nth_error_Some; congruence].
+      * eapply Forall2_imp; [|exact B]. intros x y Hxy. eapply vrel_ext; eauto.
+    + inversion Hin; subst ar l0. exists elems. split.
+      * rewrite nth_error_app2, Nat.sub_diag by lia. reflexivity.
+      * eapply Forall2_imp; [|exact HF]. intros x y Hxy. eapply vrel_ext; eauto.
+  - intros ar el Hn. destruct (Nat.lt_ge_cases ar (length (arrs st))) as [Hlt | Hge].
+    + rewrite nth_error_app1 in Hn by exact Hlt. apply (ms_arrmi _ _ _ HMS ar el Hn).
+    + rewrite nth_error_app2 in Hn by exact Hge. destruct (ar - length (arrs st))%nat as [|d]; simpl in Hn.
+      * inversion Hn; subst el. exact Hmi.
+      * destruct d; discriminate Hn.
+  - intros Hx. congruence.
 Qed.
 
 End Rel.
@@ -957,12 +1061,12 @@ Lemma env_match_run : forall G IV fc gp gl m e ce sc L stk fds (st : state) (h :
                          self_is (fc_self fc) (fd_name f) = false /\ mem_id (fd_name f) IV = false) ->
   length (mm m) = length (cells st) ->
   let k := length fds in
-  env_match G IV fc gp gl {| mm := mm m ++ map MA (seq (length h) k); mv := mv m ++ nv; mf := mf m ++ nf; mc := mc m ++ ncp; mi := mi m |}
+  env_match G IV fc gp gl {| mm := mm m ++ map MA (seq (length h) k); mv := mv m ++ nv; mf := mf m ++ nf; mc := mc m ++ ncp; mi := mi m; mar := mar m |}
             (func_env fds (length (cells st)) e) (func_cenv fds (L + 1) ce)
             (map fd_name fds ++ sc) (L + Z.of_nat k) (rev (seq (length h) k) ++ stk).
 Proof.
   intros G IV fc gp gl m e ce sc L stk fds st h nv nf ncp Hem Hnd Hnew Hlen k.
-  set (m' := {| mm := mm m ++ map MA (seq (length h) k); mv := mv m ++ nv; mf := mf m ++ nf; mc := mc m ++ ncp; mi := mi m |}).
+  set (m' := {| mm := mm m ++ map MA (seq (length h) k); mv := mv m ++ nv; mf := mf m ++ nf; mc := mc m ++ ncp; mi := mi m; mar := mar m |}).
   assert (He : ext m m') by ext_solve.
   destruct Hem as (H1 & H2 & H3 & H4 & H5 & H6 & H7 & H8).
   assert (Hne : forall y, mem_id y sc = true -> forall f, In f fds -> fd_name f <> y).
